@@ -283,11 +283,17 @@ func (r *recorder) flush() {
 // or at the driver's gate) in two consecutive dumps, and returns the grants whose watchdog is alive.
 func (r *recorder) watchdogs() ([]int, bool) {
 	deadline := time.Now().Add(stepTimeout)
-	prevStable := false
+	prevStable, prevOnlyPending := false, false
 	for {
 		st := states()
 		r.mu.Lock()
 		settled := len(r.pending) == 0
+		onlyPending := len(r.pending) > 0
+		for _, p := range r.byGoid {
+			if s := st[p.goid]; s != "select" && s != "chan receive" && s != "sync.Cond.Wait" {
+				onlyPending = false // a caller is running (possibly inside remove)
+			}
+		}
 		for _, g := range r.wdLive {
 			select {
 			case <-g.gone:
@@ -301,12 +307,25 @@ func (r *recorder) watchdogs() ([]int, bool) {
 			gid, ok := r.wdGoid[g.uuid]
 			if !ok || (st[gid] != "select" && st[gid] != "chan receive") {
 				settled = false
+				onlyPending = false
 			}
 		}
 		out := make([]int, 0, len(r.wdLive))
 		for n := range r.wdLive {
 			out = append(out, n)
 		}
+		// a line still held back although nobody is inside remove any more (two dumps in a row with everything else
+		// settled) will never get its explanation - e.g. a watchdog that ended without removing its grant: log it now
+		if !settled && onlyPending && prevOnlyPending {
+			for _, ln := range r.pending {
+				r.w.Emit(ln)
+				if ln["ev"] == "wdexit" {
+					delete(r.wdLive, ln["id"].(int))
+				}
+			}
+			r.pending = nil
+		}
+		prevOnlyPending = onlyPending
 		r.mu.Unlock()
 		sort.Ints(out)
 		if settled && prevStable {
@@ -740,13 +759,26 @@ func runReplayTest(ti int, steps []step, tw *trace.Writer) replayResult {
 				break
 			}
 			g := wdOf(p.retID)
-			if !waitFlag(func() bool { return g.at.Load() }, stepTimeout) {
-				res.Infra = "TTL watchdog never fired"
-				break
-			}
 			rec.mu.Lock()
 			gi := rec.ids[p.retID]
 			rec.mu.Unlock()
+			isGone := func() bool {
+				select {
+				case <-gi.gone:
+					return true
+				default:
+					return false
+				}
+			}
+			if !waitFlag(func() bool { return g.at.Load() || isGone() }, stepTimeout) {
+				res.Infra = "TTL watchdog never fired"
+				break
+			}
+			if isGone() && !g.at.Load() {
+				p.holding.Store(false)
+				stop = "the grant has left the queue already (somebody else removed it)"
+				break
+			}
 			g.ch <- struct{}{}
 			// the watchdog removes the grant (gone) - or ends without doing so, which the next rest line will show
 			if !waitFlag(func() bool {
